@@ -84,6 +84,8 @@ static inline EpochManager_ProtectedNode *verif_new_EpochManager_ProtectedNode(E
   __CPROVER_assume(p != 0);
   *p = v;
   EP.nodes_allocated++;
+  EP.new_node_upper = v.upper_epoch_;
+  EP.new_node_next = v.next;
   return p;
 }
 static inline void verif_delete_EpochManager_ProtectedNode(EpochManager_ProtectedNode *p)
